@@ -11,7 +11,7 @@
           0 = the case does not parse. *)
 From Coq Require Import ZArith List String Bool.
 From Verif Require Import Base.Wire Codec.Schema Codec.Value Codec.Xml Codec.Scan Codec.SpecNames
-     Codec.Transport C03.Spec.
+     Codec.Transport Codec.Big C03.Spec.
 From VerifGen Require Import GenSchema.
 Import ListNotations.
 Open Scope Z_scope.
@@ -46,8 +46,7 @@ Definition pobj : P (string * value) :=
 Definition objs_eqb (a b : list (string * value)) : bool :=
   list_eqb (fun x y => String.eqb (fst x) (fst y) && value_eqb (snd x) (snd y)) a b.
 
-Definition check : P (list Z) :=
-  T <- pstring ;;
+Definition check_doc (T : string) : P (list Z) :=
   _u <- (if existsb (String.eqb T) top_types then ret tt else pfail) ;;
   doc <- pxml 64 ;;
   v <- pvalue gen_schema PFUEL (TNamed T) ;;
@@ -65,6 +64,10 @@ Definition check : P (list Z) :=
     && sok && objs_eqb sc written in
   let j3 := doc_ok T doc in
   ret (code_if j1 1 ++ code_if j2 2 ++ code_if j3 3)%list.
+
+Definition check : P (list Z) :=
+  T <- pstring ;;
+  if String.eqb T "BIG" then check_big else check_doc T.
 
 Definition check_case (t : toks) : list Z :=
   match parse_all check t with
